@@ -136,7 +136,7 @@ def hygiene(dirs=None, pid=None):
                     bad.append("%s: %s" % (os.path.relpath(os.path.join(root, f), COQ), m.group(1)))
     return bad
 
-def build_driver(engine, edir):
+def build_driver(engine, edir, driver_src=None):
     """Extract the engine's models (coq/<edir>/Extract.v -> model.ml) and compile build/driver_<engine>."""
     od = os.path.join(BUILD, "ocaml_" + engine)
     shutil.rmtree(od, ignore_errors=True); os.makedirs(od)
@@ -149,8 +149,8 @@ def build_driver(engine, edir):
     main = 'let () = Util.main %s.run\n' % ("D_" + engine)
     open(os.path.join(od, "main.ml"), "w").write(main)
     srcs = ["util.ml", "d_%s.ml" % engine]
-    for s in srcs:
-        shutil.copy(os.path.join(VERIF, "ocaml", s), od)
+    shutil.copy(os.path.join(VERIF, "ocaml", "util.ml"), od)
+    shutil.copy(os.path.join(VERIF, "ocaml", driver_src or ("d_%s.ml" % engine)), os.path.join(od, "d_%s.ml" % engine))
     rc, out2 = sh(["ocamlfind", "ocamlopt", "-w", "-a", "model.mli", "model.ml"] + srcs + ["main.ml", "-o", os.path.join(BUILD, "driver_" + engine)], cwd=od, timeout=900)
     return rc == 0, out + out2
 
@@ -160,13 +160,14 @@ def prepare(engines, targets, pid=None):
     t0 = time.time()
     with Lock("build.lock"):
         rep = regenerate()
-        model_targets = [t for _, _, ms in engines for t in ms]
+        model_targets = [t for ent in engines for t in ent[2]]
         mok, mout = coq_make(model_targets) if model_targets else (True, "")
         ok, out = coq_make(targets) if targets else (True, "")
         res = {"gen": rep, "coq_ok": ok, "coq_out": out, "coq_errors": coq_errors(out) if not ok else [],
                "models_ok": mok, "models_out": mout, "drivers": {}}
-        for name, edir, _ in engines:
-            dok, dout = build_driver(name, edir) if mok else (False, mout)
+        for ent in engines:
+            name, edir = ent[0], ent[1]
+            dok, dout = build_driver(name, edir, ent[3] if len(ent) > 3 else None) if mok else (False, mout)
             res["drivers"][name] = (dok, dout)
         res["driver_ok"] = all(v[0] for v in res["drivers"].values())
         res["driver_out"] = "\n".join(v[1] for v in res["drivers"].values() if not v[0])
